@@ -403,6 +403,25 @@ type recipe64 struct {
 	Build func() *W64
 }
 
+// pool64Named picks pool members by name (a missing name is a harness error, loudly).
+func pool64Named(quick bool, names ...string) []recipe64 {
+	all := pool64(quick)
+	var out []recipe64
+	for _, n := range names {
+		found := false
+		for _, r := range all {
+			if r.Name == n {
+				out, found = append(out, r), true
+				break
+			}
+		}
+		if !found {
+			panic("pool64Named: no pool member named " + n)
+		}
+	}
+	return out
+}
+
 func pool64(quick bool) []recipe64 {
 	mk := func(name string, f func(w *W64)) recipe64 {
 		return recipe64{Name: name, Build: func() *W64 { w := newW64(); f(w); return w }}
@@ -438,6 +457,8 @@ func pool64(quick bool) []recipe64 {
 			add(w, vs...)
 		}),
 		mk("{full inner chunk at bucket 2}", func(w *W64) { rng(w, 2<<32, 2<<32+65536) }),
+		mk("{buckets 0..3 one value each}", func(w *W64) { add(w, 9, 1<<32+9, 2<<32+9, 3<<32+9) }),
+		// (entries added later stay at the end: a few scenarios pick pool members by position)
 		mk("Roaring32AsRoaring64({})", func(w *W64) { w.B = roaring64.Roaring32AsRoaring64(roaring.New()) }),
 		mk("Roaring32AsRoaring64({1, 70000})", func(w *W64) {
 			w.B = roaring64.Roaring32AsRoaring64(roaring.BitmapOf(1, 70000))
@@ -453,7 +474,6 @@ func pool64(quick bool) []recipe64 {
 				rng(w, bk+65530, bk+65536+5)
 			}
 		}),
-		mk("{buckets 0..3 one value each}", func(w *W64) { add(w, 9, 1<<32+9, 2<<32+9, 3<<32+9) }),
 	}
 	cow := func(r recipe64) recipe64 {
 		return recipe64{Name: r.Name + "+cow", Build: func() *W64 {
